@@ -287,8 +287,15 @@ func RunUnit(u Unit, idx int, tier string, seed int64, deadline time.Time) (res 
 			if r := recover(); r != nil {
 				buf := make([]byte, 8192)
 				buf = buf[:runtime.Stack(buf, false)]
-				res.HarnessErr = fmt.Sprintf("unit panicked: %v\n%s", r, buf)
 				res.Complete = false
+				if panicRaisedInRapid(string(buf)) {
+					// the code under test panicked in a call the unit made directly (a constructor, StateMachineActions, ...): that is a
+					// finding about the code under test, not a problem of the harness
+					res.Violations = append(res.Violations, Violation{Sig: "panic-in-code-under-test unit=" + u.Name,
+						Detail: fmt.Sprintf("a call into package rapid made by this unit panicked: %v\n%s", r, trunc(string(buf), 2500)), Replay: map[string]any{"unit": u.Name}})
+				} else {
+					res.HarnessErr = fmt.Sprintf("unit panicked: %v\n%s", r, buf)
+				}
 			}
 		}()
 		u.Run(c)
@@ -734,4 +741,30 @@ func unitsFor(ck *Check, tier string, seed int64) []Unit {
 		out = append(out, u)
 	}
 	return append(out, ck.Units("thorough", seed)...)
+}
+
+// panicRaisedInRapid: in the stack trace of a recovered panic, is the innermost frame below the runtime's panic machinery
+// a function of package rapid itself (and not of the harness or of the scheduler run-time mounted under rapid/verifrt)?
+func panicRaisedInRapid(stack string) bool {
+	lines := strings.Split(stack, "\n")
+	seenPanic := false
+	for _, ln := range lines {
+		if strings.HasPrefix(ln, "\t") || strings.HasPrefix(ln, "goroutine ") || ln == "" {
+			continue
+		}
+		if strings.HasPrefix(ln, "panic(") || strings.HasPrefix(ln, "runtime.") {
+			if strings.HasPrefix(ln, "panic(") {
+				seenPanic = true
+			}
+			continue
+		}
+		if !seenPanic {
+			continue // frames of the deferred function that is taking this trace
+		}
+		if strings.HasPrefix(ln, "reflect.") || strings.HasPrefix(ln, "sync.") || strings.HasPrefix(ln, "fmt.") || strings.HasPrefix(ln, "strconv.") || strings.HasPrefix(ln, "regexp") || strings.HasPrefix(ln, "unicode") || strings.HasPrefix(ln, "math") || strings.HasPrefix(ln, "sort.") || strings.HasPrefix(ln, "bytes.") || strings.HasPrefix(ln, "strings.") {
+			continue // the standard library, called by somebody further down
+		}
+		return strings.HasPrefix(ln, "pgregory.net/rapid.") // excludes pgregory.net/rapid/verifrt/... and verif/harness
+	}
+	return false
 }
